@@ -20,6 +20,7 @@ EXPLANATION = (
     "accumulates the batch accessor into the outer tables. A user controller's own manual fetches are its contract.")
 ASSUMPTIONS = ["a user-written BatchController fetches only what it declares as BatchSystemData"]
 TRUSTED = ["rustc nightly MIR construction", "shred-facts driver", "shredlint analyses"]
+TECHNIQUE = 'static: path enumeration of add_batch (union operands, assembly order), iterator-chain term of fetch_all_reads/writes, field wiring terms, lock-step (tables only grow), MultiDispatcher plan-data rule'
 RULE_TEXT = "one obligation per union operand, traversal chain, wiring site and imported slot obligation"
 
 
